@@ -76,6 +76,13 @@ def h_in(y):
     return h_inc(y)
 def h_out(h_inc):
     return h_in(h_inc)
+# a lambda nested inside another un-called lambda in the helper's body, the innermost one using the
+# helper's parameter and named like the use site's binder (seed C05_g: only the innermost frame was
+# consulted for the names that must not be captured)
+def h_hard(ev):
+    return ev.jets.Select(lambda j: j.tracks.Select(lambda t: t.pt > ev.x))
+def h_hard2(ev, cut):
+    return ev.jets.Select(lambda j: j.tracks.Where(lambda a: a.pt > cut).Select(lambda t: t.pt + ev.y))
 def h_in2(y):
     return h_multi(y)
 def h_out2(h_multi):
@@ -118,6 +125,8 @@ CASES = [
     "lambda e: h_kwo(e.x)", "lambda e: h_kwo(e.x, k=e.y)", "lambda e: h_pos(e.x)", "lambda e: h_pos(e.x, 4)",
     "lambda e: h_var(e.x)", "lambda e: h_var(e.x, e.y)", "lambda e: h_out(e.x)", "lambda e: h_wrapped(e.x)",
     "lambda e: h_two(*(e.x, e.y))", "lambda e: h_out2(e.x)",
+    "lambda t: h_hard(t)", "lambda j: h_hard(j)", "lambda t: h_hard2(t, t.x)", "lambda a: h_hard2(a, a.y)",
+    "lambda j: h_hard2(j, j.x)",
 ]
 
 
